@@ -100,6 +100,12 @@ def stepLine (st : St) (line : String) : St × String :=
       let st := storageSize s a
       (.sop st p [(0, n, st)], s!"{st} {p.sop.avail}")
     | _, _, _ => bad
+  | ["reset", "poolx", e, size] =>
+    -- pool_engage's asserts: `elemsz >= sizeof(struct slist_head)` and `size % elemsz == 0`
+    match e.toNat?, size.toNat? with
+    | some e, some size =>
+      (.idle, if engageRefused size e then "assert" else s!"engaged {(Pool.init.engage size e).avail}")
+    | _, _ => bad
   | ["reset", "mpool"] =>
     (.mpool (slistInit (fun _ => 0) 0) MState.init [], s!"ok {availBoth Pool.init (slistInit (fun _ => 0) 0) 0}")
   | "reset" :: "heap" :: l :: _ =>
